@@ -151,16 +151,19 @@ open Gen.LockFacts in
     (04, 06), unlock before the access (03) — and shapes a flattening extractor could produce:
     a second return with an access after the first, a second lock, an access after the unlock;
     it accepts the benign explicit unlock (08) -/
-example : wellLocked ⟨"07", [.producersLookup, .pure "panic", .access "producer.Value()", .ret]⟩ = false
-    ∧ wellLocked ⟨"04", [.producersLookup, .access "producer.Value()", .lock, .deferUnlock, .ret]⟩ = false
-    ∧ wellLocked ⟨"06", [.access "i.Parameter(nodeId)", .access "ApplyMessage(data)", .lock, .deferUnlock,
-                         .access "i.incModelVersion()", .ret]⟩ = false
-    ∧ wellLocked ⟨"03", [.lock, .unlock, .access "producer.Value()", .ret]⟩ = false
+example : wellLocked ⟨"07", [.producersLookup, .pure "fmt.Errorf", .pure "panic", .access "producer.Value()", .ret]⟩ = false
+    ∧ wellLocked ⟨"04", [.producersLookup, .pure "fmt.Errorf", .pure "panic", .access "producer.Value()", .lock,
+                         .deferUnlock, .ret]⟩ = false
+    ∧ wellLocked ⟨"06", [.access "i.Parameter(nodeId)", .access "i.Parameter(nodeId).ApplyMessage(data)", .lock,
+                         .deferUnlock, .access "i.incModelVersion()", .ret]⟩ = false
+    ∧ wellLocked ⟨"03", [.producersLookup, .pure "fmt.Errorf", .pure "panic", .lock, .unlock,
+                         .access "producer.Value()", .ret]⟩ = false
     ∧ wellLocked ⟨"b", [.lock, .deferUnlock, .access "producer.Value()", .ret, .access "producer.Value()", .ret]⟩ = false
     ∧ wellLocked ⟨"2xlock", [.lock, .deferUnlock, .lock, .access "producer.Value()", .ret]⟩ = false
     ∧ wellLocked ⟨"after", [.lock, .access "x", .unlock, .access "producer.Value()", .ret]⟩ = false
     ∧ wellLocked ⟨"early", [.lock, .access "x", .ret, .unlock, .ret]⟩ = false
-    ∧ wellLocked ⟨"08", [.lock, .access "producer.Value()", .unlock, .ret]⟩ = true := by decide
+    ∧ wellLocked ⟨"08", [.producersLookup, .pure "fmt.Errorf", .pure "panic", .lock, .access "producer.Value()",
+                         .unlock, .ret]⟩ = true := by decide
 
 variable {V : Type} [DecidableEq V] {F : Nat}
 
